@@ -49,10 +49,14 @@ static long cases, distinct, fails;
 static int want(const char *p) { return strcmp(PROP, "all") == 0 || strcmp(PROP, p) == 0; }
 static const char *scen = "?";
 static long n_align_retry;
+/* mid-utterance results: two behaviours of the unchanged tree are listed in /verif/known_findings.txt (F6, F7); while
+ * midutt is set exactly those two messages are counted as KNOWN, everything else stays a failure */
+static int midutt, c11_single; static long known_c04_partial, known_c11_partial;
 static void failf(const char *prop, const char *fmt, const char *a, const char *b)
 {
     char m[900];
     if (!want(prop)) return;
+    if (midutt && c11_single && strcmp(prop, "C11") == 0 && strstr(fmt, "is not on a lattice path with its boundaries")) { known_c11_partial++; return; }
     snprintf(m, sizeof m, fmt, a ? a : "", b ? b : "");
     if (fails++ < 12) printf("FAIL [%s] %s: %s\n", prop, scen, m);
 }
@@ -270,7 +274,12 @@ static void check_c04(decoder_t *d)
         alignment_iter_t *p;
         alignment_iter_seg(w, &st, &du);
         if (strcmp(alignment_iter_name(w), seg[i].word) != 0) failf("C04", "alignment word \"%s\" differs from first-pass word \"%s\"", alignment_iter_name(w), seg[i].word);
-        if (st != seg[i].sf || du != seg[i].ef - seg[i].sf + 1) failf("C04", "alignment word \"%s\" has other frames than the first pass%s", seg[i].word, NULL);
+        if (st != seg[i].sf || du != seg[i].ef - seg[i].sf + 1) {
+            /* known finding F6: on a PARTIAL result the aligner runs to the current frame while the partial segmentation
+             * ends at the last history frame -- only the LAST word, same start, longer duration, is tolerated as known */
+            if (midutt && i == nw - 1 && st == seg[i].sf && du > seg[i].ef - seg[i].sf + 1) known_c04_partial++;
+            else failf("C04", "alignment word \"%s\" has other frames than the first pass%s", seg[i].word, NULL);
+        }
         if (st != prev_end) failf("C04", "word level is not contiguous at \"%s\"%s", seg[i].word, NULL);
         prev_end = st + du;
         for (p = alignment_iter_children(w); p; p = alignment_iter_next(p), np++) {
@@ -323,6 +332,18 @@ static void check_c04(decoder_t *d)
     }
 }
 
+/* is there a lattice path from node n (matching segment i) through the remaining non-null segments? */
+static int fb_path(lattice_t *dag, latnode_t *n, segrec_t *seg, int i, int ns)
+{
+    int nx = i + 1; latlink_iter_t *li; int ok = 0;
+    while (nx < ns && is_null_seg(&seg[nx])) nx++;
+    if (nx >= ns) return 1;
+    for (li = ps_latnode_exits(n); li; li = ps_latlink_iter_next(li)) {
+        latlink_t *l = ps_latlink_iter_link(li); latnode_t *dst = ps_latlink_nodes(l, NULL); int16 a, b;
+        if (!ok && latnode_times(dst, &a, &b) == seg[nx].sf && strcmp(ps_latnode_word(dag, dst), seg[nx].word) == 0 && fb_path(dag, dst, seg, nx, ns)) ok = 1;
+    }
+    return ok;
+}
 static void check_c11(decoder_t *d)
 {
     lattice_t *dag, *again;
@@ -331,7 +352,9 @@ static void check_c11(decoder_t *d)
     if (!want("C11") || !decoder_hyp(d, NULL)) return;
     dag = decoder_lattice(d);
     cases++;
-    if (!dag) { failf("C11", "no lattice for a result with a hypothesis%s%s", NULL, NULL); return; }
+    /* mid-utterance, while a single word instance exists, no lattice is built yet (NULL): the property describes the
+     * lattice that IS built, so this is accepted for partial results only */
+    if (!dag) { if (!midutt) failf("C11", "no lattice for a result with a hypothesis%s%s", NULL, NULL); return; }
     distinct++;
     again = decoder_lattice(d);
     if (again != dag) failf("C11", "asking for the lattice again returns another object%s%s", NULL, NULL);
@@ -365,26 +388,26 @@ static void check_c11(decoder_t *d)
         if (nout == 0) nend++;
     }
     if (nstart != 1 || nend != 1) { char a[20], b[20]; snprintf(a, 20, "%d", nstart); snprintf(b, 20, "%d", nend); failf("C11", "lattice has %s start and %s end nodes (every node must lie on a start-to-end path)", a, b); }
-    /* first-best words and boundaries appear as a path */
+    /* first-best words and boundaries appear as a path (several nodes may share word and start frame -- one per grammar
+     * state --, so every candidate is tried: depth-first search) */
     {
-        latnode_t *cur = NULL;
-        for (i = 0; i < ns; i++) {
-            latnode_t *found = NULL;
-            if (is_null_seg(&seg[i])) continue;
-            if (cur == NULL) {
-                for (ni = ps_latnode_iter(dag); ni; ni = ps_latnode_iter_next(ni)) {
-                    latnode_t *n = ps_latnode_iter_node(ni); int16 a, b;
-                    if (latnode_times(n, &a, &b) == seg[i].sf && strcmp(ps_latnode_word(dag, n), seg[i].word) == 0 && !found) found = n;
-                }
-            } else {
-                latlink_iter_t *li;
-                for (li = ps_latnode_exits(cur); li; li = ps_latlink_iter_next(li)) {
-                    latlink_t *l = ps_latlink_iter_link(li); latnode_t *dst = ps_latlink_nodes(l, NULL); int16 a, b;
-                    if (latnode_times(dst, &a, &b) == seg[i].sf && strcmp(ps_latnode_word(dag, dst), seg[i].word) == 0 && !found) found = dst;
-                }
+        int first = -1;
+        for (i = 0; i < ns; i++) if (!is_null_seg(&seg[i])) { first = i; break; }
+        if (first >= 0) {
+            int ok = 0;
+            for (ni = ps_latnode_iter(dag); ni; ni = ps_latnode_iter_next(ni)) {
+                latnode_t *n = ps_latnode_iter_node(ni); int16 a, b;
+                if (!ok && latnode_times(n, &a, &b) == seg[first].sf && strcmp(ps_latnode_word(dag, n), seg[first].word) == 0 && fb_path(dag, n, seg, first, ns)) ok = 1;
             }
-            if (!found) { failf("C11", "first-best segment \"%s\" is not on a lattice path with its boundaries%s", seg[i].word, NULL); break; }
-            cur = found;
+            if (!ok) {
+                /* known finding F7: only a first-best result that still is ONE word instance starting at frame 0 is tolerated */
+                int nreal = 0, q; for (q = 0; q < ns; q++) if (!is_null_seg(&seg[q])) nreal++;
+                c11_single = (nreal == 1 && seg[first].sf == 0);
+                if (getenv("E2E_DEBUG")) { printf("DEBUG first-best:"); for (q = 0; q < ns; q++) printf(" %s[%d,%d]", seg[q].word, seg[q].sf, seg[q].ef); printf("\n  lattice nodes:");
+                    for (ni = ps_latnode_iter(dag); ni; ni = ps_latnode_iter_next(ni)) { latnode_t *n = ps_latnode_iter_node(ni); int16 a, b; int sf0 = latnode_times(n, &a, &b); printf(" %s@%d(%d..%d)", ps_latnode_word(dag, n), sf0, a, b); } printf("\n"); }
+                failf("C11", "first-best segmentation (from \"%s\") is not on a lattice path with its boundaries%s", seg[first].word, NULL);
+                c11_single = 0;
+            }
         }
     }
 }
@@ -523,7 +546,7 @@ static void check_hist_src(decoder_t *d)
     cases++;
     if (bad) { char a[40], b[40]; snprintf(a, 40, "%d", bad); snprintf(b, 40, "%ld", slots); failf("C01", "%s of %s live back-pointers in the lextree name a history entry that does not enter the node's grammar state", a, b); }
 }
-enum { ONE_CALL, BLOCKS, FLOAT32, BLOCKS_EARLY, FULL_POLL };
+enum { ONE_CALL, BLOCKS, FLOAT32, BLOCKS_EARLY, FULL_POLL, TINY_EARLY };
 static void decode(decoder_t *d, int slot, int mode)
 {
     size_t pos = 0, i;
@@ -545,7 +568,9 @@ static void decode(decoder_t *d, int slot, int mode)
     }
     else if (mode == FLOAT32) { for (i = 0; i < npcm[slot]; i++) fpcm[i] = pcm[slot][i] / 32768.0f; decoder_process_float32(d, fpcm, npcm[slot], 0, 0); }
     else while (pos < npcm[slot]) {
-        size_t n = npcm[slot] - pos < 2048 ? npcm[slot] - pos : 2048;
+        /* TINY_EARLY: the first 0.5 s in 10 ms pieces (results asked for while the first words are being formed), then blocks */
+        size_t blk = (mode == TINY_EARLY && pos < 8000) ? 160 : 2048;
+        size_t n = npcm[slot] - pos < blk ? npcm[slot] - pos : blk;
         const char *ph;
         decoder_process_int16(d, pcm[slot] + pos, n, 0, 0);
         pos += n;
@@ -570,8 +595,9 @@ static void decode(decoder_t *d, int slot, int mode)
                 alignment_t *a2 = decoder_alignment(d);
                 n_align_retry++;
                 if (a2 != NULL) failf("C04", "an alignment request that failed returns an alignment when repeated without new audio (half-built alignment cached)%s%s", NULL, NULL);
-            }
+            } else { midutt = 1; check_c04(d); midutt = 0; }
         }
+        if (want("C11")) { midutt = 1; check_c11(d); midutt = 0; }
         if (want("C01")) check_hist_src(d);
         /* partial result: the label sequence of some path leaving the start state */
         ph = decoder_hyp(d, NULL);
@@ -679,6 +705,8 @@ int main(int argc, char **argv)
     decode(d, 4, ONE_CALL); check_all(d, 0);
     scen = "en-us pizza recording, pizza.gram, 2048-sample blocks with partial results";
     decode(d, 4, BLOCKS); check_all(d, 0);
+    scen = "en-us goforward.raw, pizza.gram, 10 ms pieces with results during the first 0.5 s";
+    decode(d, 0, TINY_EARLY); check_all(d, 0);
     scen = "en-us pizza recording, pizza.gram, float32";
     decode(d, 4, FLOAT32); check_all(d, 0);
     scen = "en-us goforward.raw, goforward.fsg";
@@ -785,6 +813,9 @@ int main(int argc, char **argv)
     decode(d, 3, ONE_CALL); check_all(d, 1);
     decode(d, 3, BLOCKS); check_all(d, 1);
     decoder_free(d);
+    if (known_c04_partial && want("C04")) printf("KNOWN partial-result alignment gives a word other frames than the partial segmentation\n");
+    if (known_c11_partial && want("C11")) printf("KNOWN mid-utterance lattice does not contain the first-best segmentation\n");
+    printf("SAMPLE mid-utterance: %ld partial alignments with other word frames than the partial segmentation, %ld lattices without the first-best path (known findings)\n", known_c04_partial, known_c11_partial);
     if (known_c04_scores && want("C04")) printf("KNOWN alignment word scores differ from the acoustic scores of the first pass\n");
     printf("SAMPLE alignment requests that failed mid-utterance and were repeated: %ld\n", n_align_retry);
     printf("CASES %ld\nDISTINCT %ld\n", cases, distinct);
